@@ -344,4 +344,29 @@ class VP:
         return _val_run(self)
 
 
-VTYPES = {c.__name__: c for c in (VA, VB, VAX, VJ, VP)}
+@labtech.task
+class VU:
+    """Has a parameter whose name starts with an underscore (legal, not reserved)."""
+    p: Any = None
+    _q: Any = None
+
+    def run(self):
+        return _val_run(self)
+
+
+@labtech.task
+class VS:
+    """post_init rewrites a parameter into a canonical form (C15 only: its cache_key is computed before that)."""
+    p: Any = None
+    q: Any = None
+
+    def post_init(self):
+        if isinstance(self.q, str):
+            object.__setattr__(self, 'q', self.q.strip().lower())
+        object.__setattr__(self, 'derived', ('derived', repr(self.q)))
+
+    def run(self):
+        return _val_run(self)
+
+
+VTYPES = {c.__name__: c for c in (VA, VB, VAX, VJ, VP, VU, VS)}
